@@ -123,6 +123,25 @@ def run(rep, tier, seed):
                     continue
                 model_reqs.append((14, enc_expr(x)))
                 model_meta.append(x)
+    # keys with letters whose case folding is not their lower-casing, reached through ASCII aliases: the rendering
+    # writes the key, which must be recognised again as that very license
+    FT = [('Weiß-1.0', ['weiss lic'], False), ('weiss-1.0', [], False), ('Maß-exception', ['mass-exc'], True), ('mit', [], False),
+          ('Straße-2.0', ['str2'], False), ('ﬁle-lic', ['file lic'], False)]
+    Lf = make_licensing(FT)
+    for text in ('weiss lic and mit', 'mit with mass-exc', 'str2 or (weiss lic and weiss-1.0)', 'file lic or mit', 'Weiß-1.0 or weiss-1.0',
+                 'STR2 with MASS-EXC or some unknown thing', 'straße-2.0 and MAß-EXCEPTION'):
+        try:
+            e = Lf.parse(text)
+        except le.ExpressionError:
+            continue
+        for name, x in (('parse', e), ('simplify', e.simplify()), ('dedup', Lf.dedup(e))):
+            err = check_expr(Lf, x, le)
+            rep.trail.append({'table': FT, 'tree': enc_expr(x)})
+            rep.case((repr(FT), str(x), name), nontrivial=True, sample=None)
+            rep.count('case_fold_keys')
+            if err:
+                rep.violations.append({'key': 'roundtrip', 'kind': 'expr', 'table': FT, 'tree': enc_expr(x), '_at': len(rep.trail) - 1,
+                                       'text': str(x), 'what': '%s result: %s' % (name, err)})
     res = run_model(model_reqs)
     for x, r in zip(model_meta, res):
         got = [enc_str(str(x)), enc_str(x.render_as_readable())]
